@@ -7,6 +7,7 @@
 pub mod ast;
 pub mod evidence;
 pub mod gen;
+pub mod ihex;
 pub mod model;
 pub mod render;
 pub mod isa;
